@@ -1251,7 +1251,7 @@ theorem dataKey_ne_keyStr (id : String) (dpi : Option Nat) (u : String) (o : Ori
   rcases keyStr_last u o with hk | hk <;> rw [hk] at hc <;> cases hc <;> rcases hcd with hcd | hcd <;>
     revert hcd <;> decide
 
-private theorem lookup_insert_same (c : Cache) (k : String) (v : Entry) : lookup (insert c k v) k = some v := by
+theorem lookup_insert_same (c : Cache) (k : String) (v : Entry) : lookup (insert c k v) k = some v := by
   induction c with
   | nil => simp [ImageCache.insert, lookup]
   | cons e rest ih =>
@@ -1260,7 +1260,7 @@ private theorem lookup_insert_same (c : Cache) (k : String) (v : Entry) : lookup
     · simp [ImageCache.insert, lookup, h]
     · simp [ImageCache.insert, lookup, h, ih]
 
-private theorem lookup_insert_ne (c : Cache) (k k' : String) (v : Entry) (h : k ≠ k') :
+theorem lookup_insert_ne (c : Cache) (k k' : String) (v : Entry) (h : k ≠ k') :
     lookup (insert c k v) k' = lookup c k' := by
   induction c with
   | nil => simp [ImageCache.insert, lookup, h]
@@ -1278,7 +1278,7 @@ private theorem lookup_insert_ne (c : Cache) (k k' : String) (v : Entry) (h : k 
 def Exclusive (f : Fetcher) : Prop :=
   ∀ url mime file blob, f url = .ok mime file blob → ¬ (blob.svgOk = true ∧ blob.raster.isSome = true)
 
-private theorem makeRaster_value (opts : Opts) (c : Cache) (key : String) (blob : Blob) (r : Raster)
+theorem makeRaster_value (opts : Opts) (c : Cache) (key : String) (blob : Blob) (r : Raster)
     (file : Option String) (o : Orientation) :
     (makeRaster opts c key blob r file o).1 = (makeRaster opts [] key blob r file o).1 ∧
     ((makeRaster opts c key blob r file o).2 = c ∨
